@@ -388,7 +388,7 @@ def mirror_bounded(p):
     return dict(cases=cases, failures=failures[:10], samples=samples, bound=f"{len(layouts)} forcing layouts x schemes x discrete/continuous release, 15-step runs, 3 particles")
 
 
-def restart_compare(d, tag, nfile_boundary, advection="RK4", stop_h=2.0, period=1200, numrec=2, kill=True, continuous=True, rows=None):
+def restart_compare(d, tag, nfile_boundary, advection="RK4", stop_h=2.0, period=1200, numrec=2, kill=True, continuous=True, rows=None, pvars=True):
     """Cold split run; restart from the file ending at the given boundary; returns (failures, info)."""
     from ladim.configure import configure_v2
 
@@ -399,7 +399,7 @@ def restart_compare(d, tag, nfile_boundary, advection="RK4", stop_h=2.0, period=
     warm.mkdir()
     ibm = dict(module=str(d / "ibm_age"), kill_age=2400.0 if kill else 1e12)
     common = dict(advection=advection, stop_h=stop_h, period=period, numrec=numrec, release_rows=rows, ibm=ibm, state_extra=dict(age=float),
-                  particle_variables=dict(release_time="time"), out_pvars=["release_time"], continuous=continuous, freq=1800)
+                  particle_variables=dict(release_time="time") if pvars else None, out_pvars=["release_time"] if pvars else None, continuous=continuous, freq=1800)
     cfg = base_config(d, out=f"{cold.name}/out.nc", **common)
     cfg["state"]["default_values"]["age"] = 0.0
     run(cfg)
@@ -410,7 +410,7 @@ def restart_compare(d, tag, nfile_boundary, advection="RK4", stop_h=2.0, period=
     nxt = f"{warm.name}/out_{nfile_boundary + 1:03d}.nc"
     cfgw = base_config(d, out=nxt, **common)
     cfgw["state"]["default_values"]["age"] = 0.0
-    cfgw["warm_start"] = dict(filename=str(rfile), variables=["age", "temp", "release_time"])
+    cfgw["warm_start"] = dict(filename=str(rfile), variables=["age", "temp", "release_time"] if pvars else ["age", "temp"])
     configure_v2(cfgw)
     run(cfgw)
     warm_files = sorted(warm.glob("out_*.nc"))
@@ -443,7 +443,7 @@ def restart_compare(d, tag, nfile_boundary, advection="RK4", stop_h=2.0, period=
             fails.append(f"record {k} after restart differs from the uninterrupted run by {dev:.3g}")
             break
     # particle variables of the last files
-    for fc, fw in zip(exp_files, warm_files):
+    for fc, fw in zip(exp_files, warm_files) if pvars else ():
         with Dataset(fc) as a, Dataset(fw) as b:
             ra = np.ma.filled(a.variables["release_time"][:].astype(float), np.nan)
             rb = np.ma.filled(b.variables["release_time"][:].astype(float), np.nan)
@@ -503,6 +503,16 @@ def restart_bounded(p):
                 f = [f"raised {type(e).__name__}: {e}"]
             if f:
                 failures.append(dict(history="particles released at 20 min leave the grid before the next record", restart_after_file=b, first=f[0], nfail=len(f)))
+        # output WITHOUT particle variables; the newest particles appear in an earlier record of the restart file
+        # but are dead in its last record: their pids must still not be handed out again
+        rows2 = [(iso(0), 4.3, 5.2, 5.0), (iso(1 / 3), 11.3, 5.0, 5.0), (iso(1 / 3), 11.4, 5.5, 5.0), (iso(1.0), 5.2, 6.3, 50.0), (iso(1.0), 5.4, 6.1, 40.0)]
+        cases += 1
+        try:
+            f, info = restart_compare(d, "nopv", 0, advection="EF", stop_h=2.0, period=1200, numrec=3, kill=False, continuous=False, rows=rows2, pvars=False)
+        except BaseException as e:  # noqa: BLE001
+            f = [f"raised {type(e).__name__}: {e}"]
+        if f:
+            failures.append(dict(history="no particle variables; particles released at 20 min are recorded once and dead in the last record of the restart file", first=f[0], nfail=len(f)))
         samples.append(dict(scenario="continuous release every 30 min, IBM ages and kills at 40 min, strong flow leaving the grid, scalar forcing temp", restart="from every completed file"))
     return dict(cases=cases, failures=failures[:12], samples=samples, bound=f"{len(combos)} scenario variants x every file boundary")
 
